@@ -248,6 +248,14 @@ class Base(unittest.TestCase):
             trace({"ev": "tend", "t": self.spec["id"]})
 
     def setUp(self):
+        if self.spec.get("rebind"):
+            # a test that saves the standard streams and puts them back when it is over (registered first,
+            # so it runs after tearDown and after every other clean-up)
+            saved = (sys.stdout, sys.stderr)
+
+            def put_back():
+                sys.stdout, sys.stderr = saved
+            self.addCleanup(put_back)
         for k, c in reversed(list(enumerate(self.spec["cleanups"]))):
             self.addCleanup(do_part, self, ["cleanup", k], c)
         do_part(self, ["setUp"], self.spec["setUp"])
